@@ -4,75 +4,138 @@ open TinyVerif TinyVerif.MemFns
 
 /-
 Line protocol (one case per line, every case self-contained):
-  cpy|mov|fwd|bwd <size> <seed> <dest_off> <src_off> <n> [@off=val]…
-  set             <size> <seed> <dest_off> <c>       <n> [@off=val]…
-  cmp|bcm         <size> <seed> <s1_off>   <s2_off>  <n> [@off=val]…
-The arena has `size` bytes at a 4096-aligned base, filled with `pattern seed`, then poked.
-Output: `h=<hash of the whole arena afterwards> ret=<returned pointer - base>` / `… val=<i32>`.
+  cpy|mov|fwd|bwd <size> <seed> <dest_off> <src_off> <n> [setup]…
+  set             <size> <seed> <dest_off> <c>       <n> [setup]…
+  cmp|bcm         <size> <seed> <s1_off>   <s2_off>  <n> [setup]…
+The arena has `size` bytes at a 4096-aligned base, filled with `pattern seed`, then set up, in the order given, by
+  @off=val        poke one byte
+  ~to:from:len    arena[to..to+len) := arena[from..from+len) (done by the harness itself, memmove semantics)
+  !k              page k of the arena, [4096k, 4096k+4096), is INACCESSIBLE (PROT_NONE) while the function under
+                  test runs; no operand may contain a byte of it.  Any load or store there is a fault.
+Output: `h=<hash of the whole arena afterwards> ret=<returned pointer - base>` / `… val=<i32>`, then, only when it
+happened: ` bad=…`, ` oob=…`, ` rdout=<loads outside the source operand(s)>`, ` wrout=<stores outside the
+destination>`, ` fault=rd@<off>|wr@<off>` (first access to an inaccessible page).
 -/
 
 def ARENA_BASE : Nat := 65536
 def MAX_SIZE : Nat := 4194304
+def PAGE : Nat := 4096
 
-def parsePoke (size : Nat) (t : String) : Option (Nat × UInt8) :=
+inductive Setup where
+  | poke (o : Nat) (v : UInt8)
+  | copy (to frm len : Nat)
+  | hole (k : Nat)
+
+def parseSetup (size : Nat) (t : String) : Option Setup :=
   match t.toList with
   | '@' :: rest =>
     match (String.ofList rest).splitOn "=" with
     | [o, v] =>
       match o.toNat?, v.toNat? with
-      | some o, some v => if o < size ∧ v < 256 then some (o, UInt8.ofNat v) else none
+      | some o, some v => if o < size ∧ v < 256 then some (.poke o (UInt8.ofNat v)) else none
       | _, _ => none
     | _ => none
+  | '~' :: rest =>
+    match (String.ofList rest).splitOn ":" with
+    | [a, b, c] =>
+      match a.toNat?, b.toNat?, c.toNat? with
+      | some a, some b, some c => if a + c ≤ size ∧ b + c ≤ size then some (.copy a b c) else none
+      | _, _, _ => none
+    | _ => none
+  | '!' :: rest =>
+    match (String.ofList rest).toNat? with
+    | some k => if PAGE * (k + 1) ≤ size then some (.hole k) else none
+    | none => none
   | _ => none
 
-def parsePokes (size : Nat) : List String → Option (List (Nat × UInt8))
+def parseSetups (size : Nat) : List String → Option (List Setup)
   | [] => some []
   | t :: ts => do
-    let p ← parsePoke size t
-    let r ← parsePokes size ts
+    let p ← parseSetup size t
+    let r ← parseSetups size ts
     pure (p :: r)
 
-def applyPokes (m : Mem) : List (Nat × UInt8) → Mem
+def writeBytes (m : Mem) (a : Nat) : List UInt8 → Mem
   | [] => m
-  | (o, v) :: r => applyPokes (m.wr (m.base + o) v) r
+  | v :: r => writeBytes (m.wr a v) (a + 1) r
 
-def tail (m : Mem) : String :=
-  (if m.bad ≠ 0 then s!" bad={m.bad}" else "") ++ (if m.oob.isEmpty then "" else s!" oob={m.oob.length}")
+def applySetups (m : Mem) : List Setup → Mem
+  | [] => m
+  | .poke o v :: r => applySetups (m.wr (m.base + o) v) r
+  | .copy to frm len :: r =>
+    let bytes := (List.range len).map (fun i => m.rd (m.base + frm + i))
+    applySetups (writeBytes m (m.base + to) bytes) r
+  | .hole _ :: r => applySetups m r
 
-def showW (m : Mem) (ret : Option Nat) : String :=
+def holesOf : List Setup → List Nat
+  | [] => []
+  | .hole k :: r => k :: holesOf r
+  | _ :: r => holesOf r
+
+/-- `[a, a+n)` (arena offsets) contains no byte of a hole -/
+def clearOf (holes : List Nat) (a n : Nat) : Bool :=
+  holes.all (fun k => n == 0 || a + n ≤ PAGE * k || PAGE * (k + 1) ≤ a)
+
+def inHole (holes : List Nat) (base x : Nat) : Bool :=
+  holes.any (fun k => base + PAGE * k ≤ x && x < base + PAGE * (k + 1))
+
+/-- the first (oldest) access to an inaccessible page, looking at loads and stores separately; the logs are newest
+first.  (Which of a load and a store came first is not recorded; a load is reported if there is one.) -/
+def firstFault (holes : List Nat) (m : Mem) : String :=
+  if holes.isEmpty then "" else
+  match (m.rlog.reverse.find? (inHole holes m.base)), (m.wlog.reverse.find? (inHole holes m.base)) with
+  | some x, _ => s!" fault=rd@{x - m.base}"
+  | none, some x => s!" fault=wr@{x - m.base}"
+  | none, none => ""
+
+def countOutside (log : List Nat) (ranges : List (Nat × Nat)) : Nat :=
+  log.foldl (fun c x => if ranges.any (fun r => r.1 ≤ x && x < r.1 + r.2) then c else c + 1) 0
+
+/-- `rd`: the ranges loads may touch, `wr`: the range stores may touch -/
+def tail (holes : List Nat) (m : Mem) (rd wr : List (Nat × Nat)) : String :=
+  let ro := countOutside m.rlog rd
+  let wo := countOutside m.wlog wr
+  (if m.bad ≠ 0 then s!" bad={m.bad}" else "") ++ (if m.oob.isEmpty then "" else s!" oob={m.oob.length}") ++
+  (if ro ≠ 0 then s!" rdout={ro}" else "") ++ (if wo ≠ 0 then s!" wrout={wo}" else "") ++ firstFault holes m
+
+def showW (holes : List Nat) (m : Mem) (ret : Option Nat) (rd wr : List (Nat × Nat)) : String :=
   let r := match ret with | some a => toString (a - m.base) | none => "-"
-  s!"h={hashArena m} ret={r}" ++ tail m
+  s!"h={hashArena m} ret={r}" ++ tail holes m rd wr
+
+def showC (holes : List Nat) (r : Mem × Option Int) (rd : List (Nat × Nat)) : String :=
+  match r.2 with
+  | some v => s!"h={hashArena r.1} val={v}" ++ tail holes r.1 rd []
+  | none => s!"h={hashArena r.1} val=0 bad=2" ++ tail holes r.1 rd []
 
 def step (_ : Unit) (line : String) : Unit × String :=
   match Drv.words line with
-  | op :: size :: seed :: a :: b :: n :: pokes =>
+  | op :: size :: seed :: a :: b :: n :: setups =>
     match size.toNat?, seed.toNat?, a.toNat?, b.toInt?, n.toNat? with
     | some size, some seed, some a, some b, some n =>
       if size > MAX_SIZE ∨ a + n > size then ((), "bad-op") else
-      match parsePokes size pokes with
+      match parseSetups size setups with
       | none => ((), "bad-op")
-      | some pk =>
-        let m := applyPokes (mkArena ARENA_BASE size seed) pk
+      | some st =>
+        let holes := holesOf st
+        if !clearOf holes a n then ((), "bad-op") else
+        let m := (applySetups (mkArena ARENA_BASE size seed) st).clearLogs
         let base := ARENA_BASE
         if op == "set" then
           if b < -2147483648 ∨ b > 2147483647 then ((), "bad-op") else
           let (m', r) := memset m (base + a) b n
-          ((), showW m' (some r))
+          ((), showW holes m' (some r) [] [(base + a, n)])
         else if b < 0 ∨ b.toNat + n > size then ((), "bad-op") else
         let b := b.toNat
+        if !clearOf holes b n then ((), "bad-op") else
+        let rd := [(base + b, n)]
+        let wr := [(base + a, n)]
         match op with
-        | "cpy" => let (m', r) := memcpy m (base + a) (base + b) n; ((), showW m' (some r))
-        | "mov" => let (m', r) := memmove m (base + a) (base + b) n; ((), showW m' (some r))
-        | "fwd" => ((), showW (copyForward m (base + a) (base + b) n) none)
-        | "bwd" => ((), showW (copyBackward m (base + a) (base + b) n) none)
-        | "cmp" =>
-          match memcmp m (base + a) (base + b) n with
-          | some v => ((), s!"h={hashArena m} val={v}")
-          | none => ((), s!"h={hashArena m} val=0 bad=2")
-        | "bcm" =>
-          match bcmp m (base + a) (base + b) n with
-          | some v => ((), s!"h={hashArena m} val={v}")
-          | none => ((), s!"h={hashArena m} val=0 bad=2")
+        | "cpy" => let (m', r) := memcpy m (base + a) (base + b) n; ((), showW holes m' (some r) rd wr)
+        | "mov" => let (m', r) := memmove m (base + a) (base + b) n; ((), showW holes m' (some r) rd wr)
+        | "fwd" => ((), showW holes (copyForward m (base + a) (base + b) n) none rd wr)
+        | "bwd" => ((), showW holes (copyBackward m (base + a) (base + b) n) none rd wr)
+        | "cmp" => ((), showC holes (memcmp m (base + a) (base + b) n) [(base + a, n), (base + b, n)])
+        | "bcm" => ((), showC holes (bcmp m (base + a) (base + b) n) [(base + a, n), (base + b, n)])
         | _ => ((), "bad-op")
     | _, _, _, _, _ => ((), "bad-op")
   | _ => ((), "bad-op")
